@@ -26,6 +26,9 @@ type sinkObs struct {
 
 func (e *Engine) registerIntrinsics2() {
 	in := e.intrinsics
+	if e.cfg != nil && e.cfg.RealContext {
+		delete(in, "context.WithCancel")
+	}
 
 	// ---------------- regexp (concrete subject strings only) ----------------
 	in["regexp.MustCompile"] = func(c *PathCtx, fr *frame, args []Value) Value {
